@@ -10,7 +10,7 @@ cd "$WT" || exit 2
 git checkout -q -- . ; git clean -fdq -e _build
 git checkout -q --detach "$(git -C /repo rev-parse HEAD)" || exit 2
 git apply "$S/patch.diff" || { echo CONFIRM-FAIL patch does not apply; exit 1; }
-/tmp/seedtools/baseline.sh "$WT" | tail -3 | tee "$S/confirm.baseline"
+"${SEEDTOOLS:-/tmp/seedtools}/baseline.sh" "$WT" | tail -3 | tee "$S/confirm.baseline"
 RUN="$S/run.sh"
 ( cd "$S" && timeout 1800 bash "$RUN" "$WT" "$@" ); RC_WITH=$?
 echo "demo with patch rc=$RC_WITH"
